@@ -161,7 +161,13 @@ def run(check, tier, seed):
     driver = check.driver or "Verif/%s/Driver.lean" % pid
     driver_mod = driver[:-5].replace("/", ".")
     targets = check.build_targets or (props_modules + [driver_mod])
-    lean_files = check.lean_files or sorted(glob.glob(os.path.join(paths.LEAN, "Verif", pid, "*.lean")))
+    lean_files = list(check.lean_files or sorted(glob.glob(os.path.join(paths.LEAN, "Verif", pid, "*.lean"))))
+    if getattr(check, "translations", None) is not None:
+        # the translation layer: runtime library, its lemmas and the regenerated file are scanned for forbidden tokens too
+        for fn in (sorted(glob.glob(os.path.join(paths.LEAN, "Verif", "Common", "PyRt*.lean")))
+                   + [os.path.join(paths.LEAN, "Verif", "Generated", "Trans%s.lean" % pid)]):
+            if fn not in lean_files:
+                lean_files.append(fn)
     findings = [f for f in load_findings() if f.get("property") == pid]
     known_ids = {f["id"] for f in findings if f.get("status") == "known"}
     n_cases = check.quick_cases if tier == "quick" else check.thorough_cases
